@@ -47,6 +47,7 @@ Judge(c, s, e) ==
                           << e.Lflat = << >> \/ ~(IF cot THEN DualAvail(g, D) ELSE TRUE) \/ (e.flatim = 1 /\ e.Lflat = DualLaplacian(g, D, cot)), "flat_connection_gives_the_scalar_laplacian" >> >>, cls, "", s)
     [] e.op = "field" ->
          LET exact == e.ns = 0 /\ lat /\ WeightsOk(g, D, cot) /\ FX # {} /\ FX # 1..nf /\ \A f \in FX : e.zi[f][2] % 2 = 0
+                      /\ Cardinality((1..nf) \ FX) <= 8          \* exact elimination with more unknowns overflows TLC's 32-bit integers
              L == IF exact THEN TLCEval(ConnLap(g, D, FE, n, cot)) ELSE << >>
              fix == SortedSeq(FX)
              free == SortedSeq((1..nf) \ FX)
